@@ -4373,3 +4373,184 @@ def child_pair_rules(ctx):
             if not ok_:
                 ctx.violate('pair|%s|%s' % (f.path, c.callee.split('::')[-1]), 'a branch entry is assembled from a page number and a checksum of different origin (%s)' % why, f, c.line)
     ctx.check(n >= 35, 'floor|child-pair-sites', 'branch entry writes analysed: %d' % n)
+
+
+def buddy_split_rules(ctx):
+    """Buddy allocator bookkeeping (bitmap bit set = allocated, clear = free): a block obtained by splitting
+    the next order leaves its other half free; a candidate taken while searching for the lowest block is
+    either kept or given back; marking a page allocated sets its bit or splits its parent."""
+    ctx.set_rule('C14.R4', 'splitting a block frees the other half; every candidate block is kept or given back')
+    BA = 'BuddyAllocator'
+    f = ctx.fn(BA + '::alloc_inner')
+    if f is not None:
+        rec = ctx.sites(f, BA + '::alloc_inner', exact=1)
+        clr = ctx.sites(f, 'BtreeBitmap::clear', exact=1)
+        e_none = core.guard_edges(f, [Guard(call=BA + '::alloc_inner', vals={'None'})])
+        if rec and clr:
+            ctx.must_pass(f, clr, start=rec[0], exits='any', extra_cut_edges=e_none, what='after taking a block of the next order, its second half is marked free at this order')
+        al = ctx.sites(f, 'BtreeBitmap::alloc', exact=1)
+        ctx.order(f, al, rec, 'the own order is tried before a larger block is split')
+    f = ctx.fn(BA + '::alloc_lowest')
+    if f is not None:
+        ai = ctx.sites(f, BA + '::alloc_inner', exact=2)
+        fi = ctx.sites(f, BA + '::free_inner', exact=2)
+        clr = ctx.sites(f, 'BtreeBitmap::clear', exact=1)
+        # the candidate loop: from the in-loop alloc_inner (the one reached after an Iterator::next), a Some result leads to a free_inner before the loop advances
+        nxt = [c for c in f.calls if c.declared and c.declared.split('::')[-1] == 'next' and 'Iterator' in c.declared]
+        inloop = None
+        for p in ai:
+            for n_ in nxt:
+                r = core.reach(f, start=(n_.bb, len(f.blocks[n_.bb]['s'])), cut_blocks={q.bb for q in ai if q is not p})
+                if p.bb in r['term']:
+                    r2 = core.reach(f, start=(p.bb, len(f.blocks[p.bb]['s'])))
+                    if n_.bb in r2['term']:
+                        inloop = (p, n_)
+        ctx.check(inloop is not None, 'shape|%s|candidate-loop' % f.path, 'the candidate loop over higher orders was found', f, f.line)
+        if inloop is not None:
+            p, n_ = inloop
+            e_none = set()
+            for bb in range(f.nb):
+                if f.blocks[bb]['t']['k'] != 'sw':
+                    continue
+                for si, fs in enumerate(core.edge_facts(f, bb)):
+                    if any(x.kind == 'call' and x.call is not None and x.call.bb == p.bb and x.vals == frozenset({'None'}) for x in fs):
+                        e_none.add((bb, si))
+            r = core.reach(f, start=(p.bb, len(f.blocks[p.bb]['s'])), cut_blocks={q.bb for q in fi}, cut_edges=e_none)
+            again = n_.bb in r['term']
+            ctx._ob(not again, ctx.sample('must-pass', f, p.line, 'a candidate block is kept (the old best given back) or given back'))
+            if again:
+                ctx.violate('must-pass|%s|candidate-leaked' % f.path, 'a block taken while searching for the lowest one can be neither kept nor given back (free_inner skipped)', f, p.line)
+    f = ctx.fn(BA + '::record_alloc_inner')
+    if f is not None:
+        rec = ctx.sites(f, BA + '::record_alloc_inner', exact=1)
+        clr = ctx.sites(f, 'BtreeBitmap::clear', exact=2)
+        st = ctx.sites(f, 'BtreeBitmap::set', exact=1)
+        if rec:
+            e_false = core.guard_edges(f, [false_of(BA + '::record_alloc_inner')])
+            ctx.must_pass(f, clr, start=rec[0], exits='any', extra_cut_edges=e_false, what='after splitting the parent, the other half is marked free')
+        # every `true` result went through set or clear
+        trues = []
+        for i, b_ in enumerate(f.blocks):
+            for j, s_ in enumerate(b_['s']):
+                if s_[0] == 'a' and s_[1][0] == 0 and not s_[1][1] and s_[2]['k'] == 'use' and s_[2]['o'][0] == 'k' and s_[2]['o'][2] is True:
+                    trues.append(Point(f, i, j, 'return true', s_[3]))
+        if trues:
+            r = core.reach(f, cut_blocks={p.bb for p in clr + st})
+            bad = [t for t in trues if core.point_reached(f, r, t.bb, t.idx)]
+            ctx._ob(not bad, ctx.sample('must-pass', f, f.line, 'success only after the bitmap was updated'))
+            if bad:
+                ctx.violate('must-pass|%s|true-without-update' % f.path, 'record_alloc_inner can report success without marking the page allocated or splitting its parent', f, bad[0].line)
+
+
+def root_pair_rules(ctx):
+    """Wherever a (data root, system root) pair is handed on -- verification, both commit flavours, the
+    header slot -- each half comes from a source of its own kind: what is passed as the system root never
+    derives from a data-root source and vice versa (the two have the same type, so nothing else notices)."""
+    ctx.set_rule('C12.R6', 'data root and system root are never exchanged or duplicated where the pair is passed on')
+    DATA_SRC = [TM + '::get_data_root', 'TransactionHeader::user_root', 'TableNamespace::table_tree', ]
+    SYS_SRC = [TM + '::get_system_root', 'TableTreeMut::finalize_dirty_checksums']
+    DATA_NAMES = ('data_root', 'user_root')
+    n = 0
+    for g in ctx.facts.fn_list:
+        if g.kind == 'closure':
+            continue
+        names = [g.local_name(i) for i in range(1, g.argc + 1)]
+        di = [i for i, nm in enumerate(names) if nm in DATA_NAMES]
+        si = [i for i, nm in enumerate(names) if nm == 'system_root']
+        if not di or not si:
+            continue
+        pat = core.strip_generics(g.path)
+        for path, sites in sorted(ctx.facts.callers_of(pat, root=False).items()):
+            for c in sites:
+                f = c.fn
+                if f.blocks[c.bb]['c'] or len(c.t['a']) <= max(di[0], si[0]):
+                    continue
+                n += 1
+                ad, as_ = c.t['a'][di[0]], c.t['a'][si[0]]
+                fnames = {f.local_name(l) for l in core.flow_sources(f, ad)[2]} if ad[0] != 'k' else set()
+                snames = {f.local_name(l) for l in core.flow_sources(f, as_)[2]} if as_[0] != 'k' else set()
+                bad = []
+                if ad[0] != 'k' and (core.flows_from_call(f, ad, TM + '::get_system_root') or 'system_root' in fnames):
+                    bad.append('the data root argument derives from a system-root source')
+                if as_[0] != 'k' and (core.flows_from_call(f, as_, TM + '::get_data_root') or (fnames and snames & set(DATA_NAMES))):
+                    bad.append('the system root argument derives from a data-root source')
+                ctx._ob(not bad, ctx.sample('arg-flow', f, c.line, '(data root, system root) passed to %s in order' % pat.split('::')[-1]))
+                if bad:
+                    ctx.violate('arg-flow|%s|root-pair|%s' % (f.path, pat.split('::')[-1]), '%s (call of %s)' % ('; '.join(bad), pat), f, c.line)
+    ctx.check(n >= 8, 'floor|root-pair-sites', 'call sites passing a (data root, system root) pair analysed: %d' % n)
+
+
+def replaced_range_rules(ctx):
+    """`replace_leaf_children` widens the range of replaced children when it absorbs a neighbour; the list of
+    leaf pages to release is read off that range and therefore must be taken after the last widening."""
+    ctx.set_rule('C06.R15', 'the pages released by replace_leaf_children are read from the final range of replaced children')
+    f = ctx.fn('MutateHelper::replace_leaf_children')
+    if f is None:
+        return
+    s_ = core.sym(f)
+    rc = None
+    for i in range(1, f.argc + 1):
+        if f.local_name(i) == 'replaced_children':
+            rc = i
+    ctx.check(rc is not None, 'floor|%s|param' % f.path, 'replaced_children parameter exists', f, f.line)
+    if rc is None:
+        return
+    stores = []
+    for bi, b in enumerate(f.blocks):
+        if b['c']:
+            continue
+        for si, st in enumerate(b['s']):
+            if st[0] == 'a' and st[1][0] == rc and st[1][1]:
+                stores.append((bi, si, st[3]))
+    ctx.check(len(stores) >= 2, 'floor|%s|widenings' % f.path, 'the absorption arms widen replaced_children (found %d stores)' % len(stores), f, f.line)
+    cl = [c for c in f.calls if c.matches('Clone::clone') and not f.blocks[c.bb]['c'] and c.t['a'] and (lambda t: t == ('arg', rc) or (t[0] == 'place' and t[1] == ('arg', rc) and all(p == '*' for p in t[2])))(s_.operand(c.t['a'][0]))]
+    # the one whose result feeds the page collection (Iterator::map -> collect)
+    feed = []
+    for c in cl:
+        for m_ in f.calls:
+            if m_.matches('Iterator::map') and m_.t['a'] and s_.operand(m_.t['a'][0]) == ('call', c.bb):
+                feed.append(c)
+    ctx.check(len(feed) == 1, 'floor|%s|released-range' % f.path, 'one clone of replaced_children feeds the list of released leaf pages (found %d)' % len(feed), f, f.line)
+    for c in feed:
+        r = core.reach(f, start=(c.bb, len(f.blocks[c.bb]['s'])))
+        late = [s3 for s3 in stores if core.point_reached(f, r, s3[0], s3[1])]
+        ctx._ob(not late, ctx.sample('order', f, c.line, 'no widening of replaced_children after the released pages were listed'))
+        if late:
+            ctx.violate('order|%s|range-widened-after-listing' % f.path, 'replaced_children is widened (line %s) after the pages to release were read from it: the absorbed sibling is never released' % late[0][2], f, c.line)
+
+
+def separator_cut_rules(ctx):
+    """Shortened routing keys: an implementation of `Key::separator` that returns a prefix `right[..n]`
+    compares n against both key lengths first; the n that is compared is the n that is cut."""
+    ctx.set_rule('C10.R10', 'a shortened routing key is cut at exactly the length that was checked against both key lengths')
+    n = 0
+    for f in ctx.facts.fn_list:
+        if not (f.path.endswith('::separator') and ' as ' in f.path and f.path.split(' as ')[1].startswith(('types::Key>', 'crate::types::Key>'))):
+            continue
+        s_ = core.sym(f)
+        cuts = []
+        for bi, b in enumerate(f.blocks):
+            if b['c']:
+                continue
+            for si, st in enumerate(b['s']):
+                if st[0] == 'a' and st[2]['k'] == 'agg' and str(st[2].get('a', '')).endswith('ops::RangeTo') and len(st[2]['o']) == 1:
+                    cuts.append((s_.operand(st[2]['o'][0]), st[3]))
+        if not cuts:
+            continue
+        lts = []
+        for b in f.blocks:
+            if b['c']:
+                continue
+            for st in b['s']:
+                if st[0] == 'a' and st[2]['k'] == 'bin' and st[2]['op'] == 'Lt':
+                    rhs = s_.operand(st[2]['o'][1])
+                    # compared with a slice length (PtrMetadata shows as an unknown / place of an argument)
+                    lts.append((s_.operand(st[2]['o'][0]), rhs, st[3]))
+        n += 1
+        for tx, line in cuts:
+            same = [l for l in lts if l[0] == tx]
+            ok_ = len(same) >= 2
+            ctx._ob(ok_, ctx.sample('arg-flow', f, line, 'the cut length is the length compared with both key lengths'))
+            if not ok_:
+                ctx.violate('arg-flow|%s|cut-not-checked' % f.path, 'the prefix length used to cut the routing key (%s) is not the value compared against the two key lengths (%d matching comparisons): the cut may reach the end of the right key' % (s_.describe(tx), len(same)), f, line)
+    ctx.check(n >= 2, 'floor|separator-impls', 'prefix-cutting Key::separator implementations analysed: %d' % n)
